@@ -500,7 +500,10 @@ def gen_ops(tier, rng):
     n_acc, n_e2p, n_exp, n_win, n_t2n, n_ser = (90, 90, 80, 40, 12, 40) if quick else (1000, 1000, 1000, 300, 60, 300)
     # ---- accumulate: files
     for i in range(n_acc):
-        file = _gen_file(rng)
+        # a third of the NetCDF files store their initialisation times out of order (runs appended late): the
+        # script works on the stored order and writes the stored times back (seeded change C20f sorted the data
+        # along time but not the time variable)
+        file = _gen_file(rng, sorted_times=rng.random() > 0.35)
         T, L = len(file[3].split(",")), len(file[4].split(","))
         axis = rng.choice(["leadtime", "leadtime", "time"])
         n = L if axis == "leadtime" else T
